@@ -19,7 +19,8 @@ META = {
         "stores/returns the very objects and its readers (wait, data, exception, is_set) and FutureResult.result/done "
         "write no field; C09.4 the queue is a queue.Queue (FIFO); C09.5 stop sets the stop flag before taking the lock, "
         "snapshots the thread list under the lock and joins every member until not alive; __start_thread tests the flag "
-        "and registers the thread under the same lock; the worker re-tests the flag before every get; C09.6 start clears "
+        "and registers the very thread it started, on every normal path, under the same lock; the worker re-tests the flag before every "
+        "get; C09.6 the constructor leaves the pool stopped (flag set once the event exists) and start clears "
         "the flag before any __start_thread; C09.7 every access to the pool counters and thread list outside __init__ "
         "holds the pool lock (two triaged exceptions frozen by construct); C09.8 the worker accounting is exact (imported from "
         "C10.1 / C10.7 / C10.7b): a thread is started only below max_threads, every worker exit decrements the thread counter "
@@ -272,6 +273,17 @@ def check(ck):
     starts = [n for n in g2.live_nodes() for c in node_calls(n) if call_name(c) == "start" and isinstance(c.func.value, ast.Name)]
     regs = [n for n in g2.live_nodes() for c in node_calls(n) if dump(c.func) == "self._threads.append"]
     flag_tests = [n for n in g2.live_nodes() if n.kind == "branch" and dump(n.test) == "self._done_event.is_set()" and not n.polarity]
+    # the started thread is registered (stop() wakes and joins the registered threads only)
+    from vlib.flow import postdominators as _pdm, NORMAL as _NORMAL
+    pd2 = _pdm(g2, [g2.return_exit.id], _NORMAL)
+    for sn_ in starts:
+        tv = prov.origin(g2, sn_, [c for c in node_calls(sn_) if call_name(c) == "start"][0].func.value)
+        reg_ok = [r_ for r_ in regs if r_.id in pd2[sn_.id] and
+                  any(c.args and prov.origin(g2, r_, c.args[0]) == tv for c in node_calls(r_) if dump(c.func) == "self._threads.append")]
+        ck.require(bool(reg_ok), "C09.5", "%s: the started thread is registered in self._threads" % q.fn(fst),
+                   "append(thread) follows start() on every normal path",
+                   "a worker is started without being registered in the thread list: stop() neither wakes nor joins it, so it keeps serving "
+                   "the queue after stop() has returned", q.loc(fst, sn_))
     for n in starts + regs:
         ck.require("__lock" in cl.held(fst, n) and any(b.id in d2[n.id] for b in flag_tests), "C09.5",
                    "%s: `%s` under the lock after the flag test" % (q.fn(fst), q.stmt_text(n)), "guarded",
@@ -284,6 +296,17 @@ def check(ck):
                "the worker loop does not test the stop flag before dequeuing", q.loc(frun, frun.node))
 
     # ---- C09.6 start ------------------------------------------------------------------------------------------------
+    finit9 = prog.func(TP, "ThreadPool.__init__")
+    gi9 = cfg_of(finit9)
+    pdi9 = _pdm(gi9, [gi9.return_exit.id], _NORMAL)
+    sets9 = [n for n in gi9.live_nodes() for c in node_calls(n) if dump(c.func) == "self._done_event.set"]
+    clears9 = [n for n in gi9.live_nodes() for c in node_calls(n) if dump(c.func) == "self._done_event.clear"]
+    # arguments are validated first (the constructor may leave by ValueError); once the event exists it is set on every normal path
+    mk9 = [n for n in gi9.live_nodes() if n.kind == "stmt" and isinstance(n.ast, ast.Assign) and any(dump(t) == "self._done_event" for t in n.ast.targets)]
+    ck.require(len(mk9) == 1 and any(s_.id in pdi9[mk9[0].id] for s_ in sets9) and not clears9, "C09.6",
+               "%s: a new pool is in the stopped state" % q.fn(finit9), "self._done_event.set() after the event is created",
+               "the constructor does not leave the stop flag set: a new pool counts as running, start() is a no-op (no worker is created by "
+               "start(), min_threads is not honoured) and tasks enqueued before start() are executed at once", q.loc(finit9, finit9.node))
     g = cfg_of(fstart)
     d = dominators(g)
     clr = [n for n in g.live_nodes() for c in node_calls(n) if dump(c.func) == "self._done_event.clear"]
